@@ -417,6 +417,19 @@ func c16Codecs(r *tr.Run, rng *rand.Rand, nm int) int {
 						n++
 					}
 				}
+				// a value that was marshaled before and whose nested part has changed since (sizes cached inside the value are stale)
+				for _, mk := range []cqrs.CommandEventMarshaler{cqrs.ProtoMarshaler{}, cqrs.ProtobufMarshaler{}} {
+					nested, _ := structpb.NewStruct(map[string]any{"inner": map[string]any{"text": s}, "list": []any{s}})
+					_, _ = mk.Marshal(nested)
+					_ = proto.Size(nested)
+					nested.Fields["inner"].GetStructValue().Fields["text"] = structpb.NewStringValue(s + "-grown-after-the-first-marshal")
+					nested.Fields["list"].GetListValue().Values = append(nested.Fields["list"].GetListValue().Values, structpb.NewNumberValue(float64(round)))
+					msg, err := mk.Marshal(nested)
+					back := &structpb.Struct{}
+					ok := err == nil && mk.Unmarshal(msg, back) == nil && proto.Equal(nested, back)
+					r.Emit("rt", "kind", fmt.Sprintf("cqrs-proto-remarshal/%T", mk), "orig", "v", "back", map[bool]string{true: "v", false: "different"}[ok], "nameok", err == nil && mk.NameFromMessage(msg) == mk.Name(nested))
+					n++
+				}
 				gv := &gogotypes.StringValue{Value: s}
 				gm := cqrs.ProtobufMarshaler{}
 				msg, err := gm.Marshal(gv)
